@@ -13,7 +13,7 @@ import (
 	"verif/internal/core"
 )
 
-func init() { Registry["C11"] = checkC11 }
+func init() { Registry["C11"] = withErrRules(checkC11, "", "idl", "idl/internal", "ast") }
 
 func checkC11(c *core.Ctx, l *core.Ledger) {
 	l.Explanation = "Static clauses of C11: (WALK-COMPLETE) for every concrete ast.Node type, visitChildren calls v.visit exactly once for every field (or, inside a loop over it, every element of a slice field) whose static type implements Node, passing the stack it received, and visits nothing else; visitor.visit returns on nil, asks the user's visitor with the stack of ancestors, then pushes the node before descending — together: every node reachable through Node-typed fields is visited exactly once with its true parent on top of the stack; (XOR) internal.Parse returns a program only under e==0 && !parseFailed and otherwise the zero result with lex.errors; parseFailed is set only by AppendError, which appends in the same straight-line block; the generated yyParse reaches `return 1` only after yylex.Error was called (abstract interpretation of the error-recovery flag over the generated parser's CFG); newParseError is nil iff the list is empty — hence never both, never neither; (POS-PAIR) every ast literal built by a grammar action takes Line and Column from the same position marker and every pos() accessor returns its own Line/Column; (POS-KEY) positions recorded in the side table must be keyed by nodes with identity (pointers or position-carrying values) — value-typed constants are not, which is recorded as a known finding. (POS-MARKER) for every use of a position or docstring marker in a grammar action, the goyacc tables in y.go are explored abstractly — reachable (state, lookahead-present) configurations of the LALR automaton on error-free input, reductions resolved through the reverse transition graph — to decide whether the marker's empty production is reduced after the next token was read (lexer.Pos() then describes the next token) or by default without lookahead (it describes the last shifted token); a marker followed by further symbols must describe the next token, a marker ending its production the token it follows. (LEX-NUM) every strconv.ParseInt in the scanner uses base 10, or 16 under the test for the 0x prefix, with 64 bits, and ParseFloat 64 bits. (ACTION-USES) for every production of the grammar (thrift.y) the action refers to every right-hand-side symbol that carries a semantic value, and the corresponding case of the generated parser mentions the same yyDollar[k] — no parsed component (an annotation list, a default value) is dropped from the tree. (BYTE-SAFE) the hand-written code of idl/internal treats literal text bytewise (no rune-level mapping, []rune conversion or range over a string), so \\xNN escapes survive. NOT decided: that the ragel scanner is total and tokenises faithfully, newline bookkeeping inside lex.go, docstring attachment, unquoting, literal values."
@@ -251,6 +251,42 @@ func checkWalkComplete(c *core.Ctx, l *core.Ledger) {
 		// order: Visit before visitChildren, nil-visitor return between them
 		if found, _ := core.PathFromEntryAvoiding(vf, func(in ssa.Instruction) bool { return in == visits[0] }, func(in ssa.Instruction) bool { return in == vcs[0] }); found {
 			why = append(why, "children can be visited without asking the visitor first")
+		}
+		// a visitor that answers nil prunes the subtree: children are visited only where the answer was found non-nil
+		if vv, isV := visits[0].(ssa.Value); isV {
+			nn := core.GuardEdges(vf, func(cm core.Cmp) bool {
+				k, isK := cm.Y.(*ssa.Const)
+				if cm.Op != token.NEQ || !isK || !k.IsNil() {
+					return false
+				}
+				if cm.X == vv || core.Unspill(cm.X) == vv {
+					return true
+				}
+				// the answer kept in a field of visit's own copy of the visitor: a load of &v.f after `v.f = answer`
+				ld, isLd := cm.X.(*ssa.UnOp)
+				if !isLd || ld.Op != token.MUL {
+					return false
+				}
+				fa, isFA := ld.X.(*ssa.FieldAddr)
+				if !isFA {
+					return false
+				}
+				var last ssa.Value
+				for _, in := range ld.Block().Instrs {
+					if in == ssa.Instruction(ld) {
+						break
+					}
+					if st, isSt := in.(*ssa.Store); isSt {
+						if fa2, isFA2 := st.Addr.(*ssa.FieldAddr); isFA2 && fa2.X == fa.X && fa2.Field == fa.Field {
+							last = st.Val
+						}
+					}
+				}
+				return last == vv
+			})
+			if len(nn) == 0 || !core.AllPathsThroughEdges(vf, vcs[0].Block(), nn) {
+				why = append(why, "children are visited although the visitor answered nil (the next Visit call is made on a nil visitor)")
+			}
 		}
 		// nil node returns before Visit
 		nilE := core.GuardEdges(vf, func(cm core.Cmp) bool {
